@@ -136,6 +136,17 @@ def resolve_value(body, blocks, t, _depth=0):
         return (t[0], t[1], tuple(resolve_value(body, blocks, a, _depth + 1) for a in t[2])) + tuple(t[3:])
     if t[0] == "agg" and len(t) > 3:
         return (t[0], t[1], t[2], tuple((n, resolve_value(body, blocks, v, _depth + 1)) for (n, v) in t[3])) + tuple(t[4:])
+    if t[0] == "un" and len(t) > 2:
+        x = resolve_value(body, blocks, t[2], _depth + 1)
+        if t[1] == "Not" and isinstance(x, tuple) and x and x[0] == "const" and x[1] == "bool":
+            return ("const", "bool", 0 if x[2] else 1)
+        if t[1] == "Not" and isinstance(x, tuple) and x and x[0] == "un" and x[1] == "Not":
+            return x[2]
+        return (t[0], t[1], x) + tuple(t[3:])
+    if t[0] == "cast" and len(t) > 3:
+        return (t[0], t[1], resolve_value(body, blocks, t[2], _depth + 1)) + tuple(t[3:])
+    if t[0] == "bin" and len(t) > 3:
+        return (t[0], t[1], resolve_value(body, blocks, t[2], _depth + 1), resolve_value(body, blocks, t[3], _depth + 1)) + tuple(t[4:])
     return t
 
 
